@@ -88,22 +88,26 @@ def setMany (f : Addr → Option Perm) (ps : List Addr) (pr : Perm) : Addr → O
 /-- all listed pages are mapped -/
 def MappedAll (s : State) (ps : List Addr) : Prop := ∀ p ∈ ps, (s.perm p).isSome = true
 
-theorem run_prot (pr : Perm) : ∀ (ps : List Addr) (s : State), MappedAll s ps →
+/-- the kernel policy does not refuse protection `pr` -/
+def Allowed (s : State) (pr : Perm) : Prop := (s.denyWX && pr.w && pr.x) = false
+
+theorem run_prot (pr : Perm) : ∀ (ps : List Addr) (s : State), MappedAll s ps → Allowed s pr →
     run s (ps.map (fun p => Step.mprotect p pr)) = ({ s with perm := setMany s.perm ps pr }, none) := by
   intro ps
   induction ps with
   | nil =>
-    intro s _
+    intro s _ _
     have : setMany s.perm [] pr = s.perm := by
       funext q; simp [setMany]
     simp only [List.map_nil, run, this]
   | cons p rest ih =>
-    intro s hm
+    intro s hm hA
     have hp := hm p (List.mem_cons_self ..)
     cases hpp : s.perm p with
     | none => rw [hpp] at hp; cases hp
     | some v =>
-      simp only [List.map_cons, run, step, hpp]
+      have hA' : (s.denyWX && pr.w && pr.x) = false := hA
+      simp only [List.map_cons, run, step, hpp, hA', Bool.false_eq_true, if_false]
       rw [ih]
       · congr 1
         congr 1
@@ -120,6 +124,7 @@ theorem run_prot (pr : Perm) : ∀ (ps : List Addr) (s : State), MappedAll s ps 
         · simp [h]
         · simp only [h, if_false]
           exact hm p' (List.mem_cons_of_mem _ hp')
+      · exact hA
 
 /-! ## running the copy -/
 
@@ -203,7 +208,9 @@ theorem step_frame (s s' : State) (st : Step) (q : Addr) (h : step s st = .ok s'
     simp only [step] at h
     split at h
     · cases h
-    · cases h; rfl
+    · split at h
+      · cases h
+      · cases h; rfl
   | store a b =>
     simp only [step] at h
     split at h
@@ -241,11 +248,13 @@ theorem step_exec (s s' : State) (st : Step) (p : Addr) (h : step s st = .ok s')
     simp only [step] at h
     split at h
     · cases h
-    · cases h
-      simp only [Exec, setPerm]
-      by_cases hp : p = p'
-      · exact ⟨pr, by simp [hp], hx p' pr rfl⟩
-      · simp only [hp, if_false]; exact he
+    · split at h
+      · cases h
+      · cases h
+        simp only [Exec, setPerm]
+        by_cases hp : p = p'
+        · exact ⟨pr, by simp [hp], hx p' pr rfl⟩
+        · simp only [hp, if_false]; exact he
   | store a b =>
     simp only [step] at h
     split at h
@@ -307,12 +316,28 @@ theorem script_stores (a : Addr) (data : List Byte) (q : Addr) (h : StoresTo (sc
     exact ⟨j, hj, rfl⟩
   · cases e
 
-/-- the procedural `writeTo` visits exactly the states of the script, stopping at the first failing step -/
-theorem writeTo_state (a : Addr) (data : List Byte) (s : State) :
+/-- when the RWX pass is not refused, the procedural `writeTo` visits exactly the states of the script, stopping at the
+    first failing step -/
+theorem writeTo_state (a : Addr) (data : List Byte) (s : State)
+    (h1 : (run s (protScript a data.length RWX)).2 = none) :
     (writeTo a data s).1 = (run s (script a data)).1 := by
   simp only [writeTo, script, List.append_assoc]
   rw [run_append]
-  rcases h1 : run s (protScript a data.length RWX) with ⟨s1, _ | e1⟩
+  rcases h1' : run s (protScript a data.length RWX) with ⟨s1, _ | e1⟩
+  · simp only
+    rw [run_append]
+    rcases h2 : run s1 (copyScript a data) with ⟨s2, _ | e2⟩
+    · simp only
+      rcases h3 : run s2 (protScript a data.length RX) with ⟨s3, _ | e3⟩ <;> rfl
+    · rfl
+  · rw [h1'] at h1; cases h1
+
+/-- the fall-back visits exactly the states of `fallbackScript` -/
+theorem fallback_state (a : Addr) (data : List Byte) (e0 : Err) (s : State) :
+    (fallbackWrite a data e0 s).1 = (run s (fallbackScript a data)).1 := by
+  simp only [fallbackWrite, fallbackScript, List.append_assoc]
+  rw [run_append]
+  rcases h1 : run s (protScript a data.length RW) with ⟨s1, _ | e1⟩
   · simp only
     rw [run_append]
     rcases h2 : run s1 (copyScript a data) with ⟨s2, _ | e2⟩
@@ -320,6 +345,42 @@ theorem writeTo_state (a : Addr) (data : List Byte) (s : State) :
       rcases h3 : run s2 (protScript a data.length RX) with ⟨s3, _ | e3⟩ <;> rfl
     · rfl
   · rfl
+
+theorem fallbackScript_stores (a : Addr) (data : List Byte) (q : Addr) (h : StoresTo (fallbackScript a data) q) :
+    ∃ j, j < data.length ∧ q = a + BitVec.ofNat 64 j := by
+  obtain ⟨b, hm⟩ := h
+  simp only [fallbackScript, protScript, copyScript, List.mem_append, List.mem_map] at hm
+  rcases hm with (⟨_, _, e⟩ | hm) | ⟨_, _, e⟩
+  · cases e
+  · obtain ⟨j, hj, e⟩ := mem_copyFrom a data 0 _ hm
+    simp only [Nat.zero_add] at e
+    cases e
+    exact ⟨j, hj, rfl⟩
+  · cases e
+
+/-- frame on every path of `writeTo`, fall-back included -/
+theorem writeTo_frame (a : Addr) (data : List Byte) (s : State) (q : Addr)
+    (hq : ∀ j, j < data.length → q ≠ a + BitVec.ofNat 64 j) : (writeTo a data s).1.mem q = s.mem q := by
+  rcases h1 : run s (protScript a data.length RWX) with ⟨s1, _ | e1⟩
+  · rw [writeTo_state a data s (by rw [h1])]
+    apply run_frame
+    intro hst
+    obtain ⟨j, hj, e⟩ := script_stores a data q hst
+    exact hq j hj e
+  · have hs1 : s1.mem q = s.mem q := by
+      have := run_frame (protScript a data.length RWX) s q (by
+        rintro ⟨b, hb⟩
+        simp only [protScript, List.mem_map] at hb
+        obtain ⟨_, _, e⟩ := hb
+        cases e)
+      rw [h1] at this
+      exact this
+    simp only [writeTo, h1]
+    rw [fallback_state, ← hs1]
+    apply run_frame
+    intro hst
+    obtain ⟨j, hj, e⟩ := fallbackScript_stores a data q hst
+    exact hq j hj e
 
 /-! ## cover / tight -/
 
@@ -344,7 +405,7 @@ theorem pages_tight (a : Addr) (n : Nat) (p : Addr) (h : NoWrap a n) (hn : 0 < n
 /-! ## the successful path of `writeTo` -/
 
 theorem writeTo_spec (a : Addr) (data : List Byte) (s : State) (h : NoWrap a data.length)
-    (hm : MappedAll s (pages a data.length)) :
+    (hm : MappedAll s (pages a data.length)) (hd : s.denyWX = false) :
     ∃ s', writeTo a data s = (s', Outcome.ok) ∧
       s'.perm = setMany s.perm (pages a data.length) RX ∧
       (∀ j (hj : j < data.length), s'.mem (a + BitVec.ofNat 64 j) = data[j]) := by
@@ -359,11 +420,92 @@ theorem writeTo_spec (a : Addr) (data : List Byte) (s : State) (h : NoWrap a dat
     simp only [setMany, hp, if_true, Option.isSome_some]
   refine ⟨{ s2 with perm := setMany s2.perm (pages a data.length) RX }, ?_, ?_, ?_⟩
   · simp only [writeTo, protScript, copyScript]
-    rw [run_prot RWX _ s hm]
+    rw [run_prot RWX _ s hm (by simp [Allowed, hd])]
     simp only
     rw [hrun2]
     simp only
-    rw [run_prot RX _ s2 hm2]
+    rw [run_prot RX _ s2 hm2 (by simp [Allowed, RX])]
+  · simp only [hperm2]
+    funext q
+    simp only [setMany]
+    by_cases hq : q ∈ pages a data.length <;> simp [hq]
+  · intro j hj
+    have := hval (by unfold NoWrap at h; omega) j hj
+    simp only [Nat.zero_add] at this
+    exact this
+
+/-! ## the kernel policy never changes -/
+
+theorem step_deny (s s' : State) (st : Step) (h : step s st = .ok s') : s'.denyWX = s.denyWX := by
+  cases st with
+  | mprotect p pr =>
+    simp only [step] at h
+    split at h
+    · cases h
+    · split at h
+      · cases h
+      · cases h; rfl
+  | store a b =>
+    simp only [step] at h
+    split at h
+    · split at h
+      · cases h; rfl
+      · cases h
+    · cases h
+
+theorem run_deny : ∀ (sc : List Step) (s : State), (run s sc).1.denyWX = s.denyWX := by
+  intro sc
+  induction sc with
+  | nil => intro s; rfl
+  | cons st rest ih =>
+    intro s
+    simp only [run]
+    cases hst : step s st with
+    | error e => rfl
+    | ok s' => simp only; rw [ih s', step_deny s s' st hst]
+
+theorem writeTo_deny (a : Addr) (data : List Byte) (s : State) : (writeTo a data s).1.denyWX = s.denyWX := by
+  rcases h1 : run s (protScript a data.length RWX) with ⟨s1, _ | e1⟩
+  · rw [writeTo_state a data s (by rw [h1]), run_deny]
+  · have hs1 : s1.denyWX = s.denyWX := by
+      have := run_deny (protScript a data.length RWX) s
+      rw [h1] at this
+      exact this
+    simp only [writeTo, h1]
+    rw [fallback_state, run_deny, hs1]
+
+/-! ## the fall-back path (RWX refused by a W^X policy) -/
+
+/-- with a W^X policy the first `mprotect(.., RWX)` is refused and nothing has changed -/
+theorem run_rwx_denied (a : Addr) (n : Nat) (s : State) (hd : s.denyWX = true) (p0 : Addr) (rest : List Addr)
+    (hp : pages a n = p0 :: rest) (hm : MappedAll s (pages a n)) :
+    run s (protScript a n RWX) = (s, some (Err.eacces p0)) := by
+  have h0 := hm p0 (by rw [hp]; exact List.mem_cons_self ..)
+  cases hpp : s.perm p0 with
+  | none => rw [hpp] at h0; cases h0
+  | some v => simp only [protScript, hp, List.map_cons, run, step, hpp, hd, RWX, Bool.and_self, if_true]
+
+theorem fallback_spec (a : Addr) (data : List Byte) (e0 : Err) (s : State) (h : NoWrap a data.length)
+    (hm : MappedAll s (pages a data.length)) :
+    ∃ s', fallbackWrite a data e0 s = (s', Outcome.okFallback e0) ∧
+      s'.perm = setMany s.perm (pages a data.length) RX ∧
+      (∀ j (hj : j < data.length), s'.mem (a + BitVec.ofNat 64 j) = data[j]) := by
+  have hcopy := run_copy a data 0 { s with perm := setMany s.perm (pages a data.length) RW } (by
+    intro j hj
+    refine ⟨RW, ?_, rfl⟩
+    simp only [setMany, Nat.zero_add, pages_cover a data.length j h hj, if_true])
+  obtain ⟨s2, hrun2, hperm2, _, hval⟩ := hcopy
+  have hm2 : MappedAll s2 (pages a data.length) := by
+    intro p hp
+    rw [hperm2]
+    simp only [setMany, hp, if_true, Option.isSome_some]
+  refine ⟨{ s2 with perm := setMany s2.perm (pages a data.length) RX }, ?_, ?_, ?_⟩
+  · simp only [fallbackWrite, protScript, copyScript]
+    rw [run_prot RW _ s hm (by simp [Allowed, RW])]
+    simp only
+    rw [hrun2]
+    simp only
+    rw [run_prot RX _ s2 hm2 (by simp [Allowed, RX])]
   · simp only [hperm2]
     funext q
     simp only [setMany]
